@@ -44,6 +44,19 @@ fn separator(rng: &mut Rng, lex: &Lexicon) -> String {
 }
 
 fn part(rng: &mut Rng, lex: &Lexicon) -> String {
+    if rng.chance(1, 8) {
+        // a spelled decimal, often with an all-zero or zero-led fraction (state of the decimal path)
+        let n = gen::random_number(rng, 3);
+        let d = *rng.pick(&["0", "00", "05", "5", "50", "007", "12", "000"]);
+        if let Some(p) = super::c05::decimal_phrase(lex.code, &spell::cardinal(lex.code, n), d) {
+            let tail = match rng.below(3) {
+                0 => format!(" {}", lex.sep),
+                1 => format!(" {}", rng.pick(&lex.fillers)),
+                _ => String::new(),
+            };
+            return format!("{}{}", p, tail);
+        }
+    }
     match (lex.code, rng.below(10)) {
         ("fr", 0..=5) => gen::annot_fr(rng, lex),
         ("en", 0..=3) => gen::annot_en(rng, lex, false),
